@@ -53,6 +53,7 @@ pub fn parse_files(
     let mut definitions = HashMap::new();
     let mut main_components = Vec::new();
     let mut unreadable = Vec::new();
+    let mut unparsable = Vec::new();
     while let Some(file_path) = FileStack::take_next(&mut file_stack) {
         if !file_stack.is_user_input(&file_path) {
             if let Err(error) = open_file(&file_path) {
@@ -76,8 +77,25 @@ pub fn parse_files(
                 reports.append(&mut warnings);
             }
             Err(error) => {
+                // The error is located in the file. If the file was included it is also
+                // reported at the include statements (below), since its definitions are missing.
+                if !file_stack.is_user_input(&file_path) {
+                    unparsable.push(file_path);
+                }
                 reports.push(*error);
             }
+        }
+    }
+    for file_path in unparsable {
+        for include in file_stack.included_from(&file_path) {
+            reports.push(
+                errors::IncludedFileError {
+                    path: file_path.display().to_string(),
+                    file_id: include.meta.file_id,
+                    file_location: include.meta.file_location(),
+                }
+                .into_report(),
+            );
         }
     }
     for (file_path, error) in unreadable {
